@@ -231,6 +231,7 @@ func runEz(c EzCase) vrt.Verdict {
 	} else {
 		lab["expect:value"] = true
 	}
+	emptyLabels(ev.pats, c.Supply, lab)
 	nonTrivial := false
 	for i, p := range ev.pats {
 		k := "leaf"
